@@ -97,7 +97,19 @@ static int v_lookup(const char *name, long long *out)
 static long long v_get(const char *name)
 {
 	long long v = 0;
+	/* an input declared inside a loop: the k-th call gets the k-th recorded value (name#k) if there is one */
+	static struct { const char *name; int calls; } cnt[64];
+	char key[160];
+	int i;
 
+	for (i = 0; i < 64 && cnt[i].name && strcmp(cnt[i].name, name) != 0; i++)
+		;
+	if (i < 64) {
+		cnt[i].name = name;
+		snprintf(key, sizeof(key), "%s#%d", name, cnt[i].calls++);
+		if (v_lookup(key, &v))
+			return v;
+	}
 	if (!v_lookup(name, &v))
 		fprintf(stderr, "replay: no value for %s, using 0\n", name);
 	return v;
